@@ -7,10 +7,6 @@
 #include <algorithm>
 #include <thread>
 
-#if VRT_ASAN
-#include <sanitizer/lsan_interface.h>
-#endif
-
 Ctx g;
 std::atomic<uint8_t>* g_cnt[kMaxStages];
 std::atomic<uint8_t>* g_dead;
@@ -42,6 +38,7 @@ void genStorm() {
 
 // ------------------------------------------------------------------ spec
 static const long kNoLimit = static_cast<long>(dispenso::kStageNoLimit);
+static const long kUnboundedCap = 40000; // an 'unbounded' generator is cut off here if nothing stops it earlier
 
 struct Spec {
   int shape = 2;
@@ -137,7 +134,7 @@ static void clearArrays() {
 static void applySpec(const Spec& s) {
   clearArrays();
   g.nStages = s.nStages();
-  g.n = s.unbounded ? kMaxTags : s.n;
+  g.n = s.unbounded ? kUnboundedCap : s.n;
   g.unbounded = s.unbounded;
   g.salt = s.salt;
   g.yieldInStage = s.yieldInStage;
@@ -354,18 +351,6 @@ static bool reportLimits(const Spec& s, const char* prop, const std::string& sub
   return bad;
 }
 
-static void lsanCaseCheck() {
-#if VRT_ASAN
-  // A leak is attributed to the open case through the stderr markers. LSan re-reports old leaks on
-  // every check, so after a report the process is ended inside the case; the driver restarts the
-  // shard behind it.
-  if (__lsan_do_recoverable_leak_check()) {
-    fflush(stderr);
-    _exit(79);
-  }
-#endif
-}
-
 // ------------------------------------------------------------------ generation (C27 / C28)
 static long pickLimit(vrt::Rng& r, int pool) {
   long c[] = {1, 1, 2, 2, 3, pool, pool + 1, kNoLimit, kNoLimit, 4, 17, 0};
@@ -520,9 +505,6 @@ static void runFlowCase(long idx, bool c28) {
   }
   J st = obsJson(s, rr);
   st.kv("hits23", hits23);
-#if VRT_ASAN
-  lsanCaseCheck();
-#endif
   vrt::caseEnd(st, nt ? s.json().str() : "", cls);
 }
 
@@ -792,12 +774,10 @@ static void runExcCase(long idx, Spec s, int thrower, std::vector<std::string> c
   (void)secondOk;
   if (thrown) {
     cls.push_back("threw");
+    if (s.unbounded && rr.producedAtReturn < kUnboundedCap) cls.push_back("unbounded-generator");
     if (leaked == 0) cls.push_back("no-leak");
   }
   obs1.kv("leaked", leaked);
-#if VRT_ASAN
-  lsanCaseCheck();
-#endif
   vrt::caseEnd(obs1, thrown ? s.json().str() : "", cls);
 }
 
@@ -823,11 +803,14 @@ static void runC29() {
     vrt::Rng r = vrt::caseRng(idx);
     Spec s;
     s.salt = r.next() | 1;
+    // A parallel generator + an early throw deadlocks pipeline() (known finding, 6 s of watchdog per
+    // occurrence); only one in 16 of the scenarios that would have >= 2 generator tasks keeps them.
+    const bool keepGenPar = r.below(16) == 0;
     int thrower = 0;
     std::vector<std::string> cls;
     if (idx < nEnum) {
       // with a stride, the seed picks which residue class of the enumeration is run
-      if (stride > 1 && (idx % stride) != static_cast<long>(vrt::g_args.seed % static_cast<uint64_t>(stride))) continue;
+      if (stride > 1 && static_cast<long>(vrt::mix(static_cast<uint64_t>(idx), 0xE29) % static_cast<uint64_t>(stride)) != static_cast<long>(vrt::g_args.seed % static_cast<uint64_t>(stride))) continue;
       const EnumCase& e = en[static_cast<size_t>(idx)];
       s.shape = e.shape;
       s.n = e.nItems;
@@ -891,10 +874,21 @@ static void runC29() {
       s.bg = r.chance(0.15);
       s.unbounded = ns > 1 && r.chance(0.2);
       thrower = static_cast<int>(r.below(static_cast<uint64_t>(ns)));
+      if (s.unbounded) {
+        // the throw must come while the generator is still running: early tag, short dwells, and a
+        // generator that is not orders of magnitude faster than the stages
+        for (int k = 0; k < ns; ++k) s.dwell[k] = std::min(s.dwell[k], 20);
+        s.dwell[0] = std::max(s.dwell[0], 2);
+        // a generator that never ends must leave a worker free for the other stages (pipeline()'s
+        // caller does not help while it waits for the generator)
+        if (s.pool < 2) s.pool = static_cast<int>(2 + r.below(3));
+        s.limit[0] = (keepGenPar && s.pool >= 3) ? 2 : 1;
+      }
       applySpec(s);
       long scanLim = s.unbounded ? 400 : s.n;
       long reach = countReaching(s, thrower, scanLim);
       if (reach == 0) s.unbounded = false;
+      if (s.unbounded) reach = std::min<long>(reach, 10);
       int pc = static_cast<int>(r.below(4));
       if (reach > 0) {
         if (pc == 0) {
@@ -920,10 +914,13 @@ static void runC29() {
           s.posClass = "multi";
         }
       }
-      if (s.unbounded) cls.push_back("unbounded-generator");
       if (s.bg) cls.push_back("bg-load");
     }
     int ns = s.nStages();
+    if (ns > 1 && genTasks(s) >= 2) {
+      if (keepGenPar) cls.push_back("gen-parallel");
+      else s.limit[0] = 1;
+    }
     cls.push_back("pos:" + s.posClass);
     cls.push_back(s.poolClass());
     cls.push_back(std::string("thrower:") + (ns == 1 ? "single" : (thrower == 0 ? "gen" : (thrower == ns - 1 ? "sink" : "xform"))));
@@ -953,6 +950,9 @@ int main(int argc, char** argv) {
     return j.str();
   });
   const std::string& p = vrt::g_args.prop;
+  // ASan builds: the runtime's per-case LeakSanitizer pass costs ~0.5 s; the non-exception flows
+  // check every 8th case (a leak is then attributed to one of 8 cases), C29 checks every case.
+  if (p == "C27" || p == "C28") vrt::leakCheckEvery(8);
   if (p == "C27") runFlow(false);
   else if (p == "C28") runFlow(true);
   else if (p == "C29") runC29();
